@@ -62,11 +62,12 @@ const (
 	evConf
 	evTransfer
 	evExpire
+	evIsolate
 	evKinds
 )
 
-var evNames = [...]string{"deliver", "drop", "dup", "campaign", "heartbeat", "propose", "crash", "restart", "compact", "proposeConf", "transferLeader", "leaseExpire"}
-var evShort = [...]string{"D", "X", "U", "C", "H", "P", "K", "R", "S", "F", "T", "E"}
+var evNames = [...]string{"deliver", "drop", "dup", "campaign", "heartbeat", "propose", "crash", "restart", "compact", "proposeConf", "transferLeader", "leaseExpire", "isolate"}
+var evShort = [...]string{"D", "X", "U", "C", "H", "P", "K", "R", "S", "F", "T", "E", "I"}
 
 // Conf-change variants (A field of evConf). "J" is the joiner id (Members+1), "L" the last
 // initial member (Members).
@@ -697,6 +698,7 @@ type cluster struct {
 	pool    []pmsg
 	nextSeq uint16
 	used    used
+	iso     uint8 // node cut off from the others (0: none): its traffic is lost on delivery
 
 	leaderOf []uint64    // by term; 0 = none seen
 	ledger   []ledgerEnt // by index
@@ -740,7 +742,7 @@ func (c *cluster) findMsg(seq uint16) int {
 }
 
 func (c *cluster) clone() *cluster {
-	d := &cluster{sim: c.sim, cfg: c.cfg, bud: c.bud, fifo: c.fifo, nextSeq: c.nextSeq, used: c.used}
+	d := &cluster{sim: c.sim, cfg: c.cfg, bud: c.bud, fifo: c.fifo, nextSeq: c.nextSeq, used: c.used, iso: c.iso}
 	if len(c.nodes) <= len(d.nodesArr) {
 		d.nodes = d.nodesArr[:len(c.nodes)]
 		copy(d.nodes, c.nodes)
@@ -797,12 +799,23 @@ func (c *cluster) step(e Event) *cluster {
 		if n == nil || !n.alive {
 			return d // addressed to a node that is down: lost
 		}
+		if c.iso != 0 && (p.m.To == uint64(c.iso) || p.m.From == uint64(c.iso)) {
+			return d // crosses the partition: lost
+		}
 		if p.m.Term != 0 && p.m.Term < n.status.Term {
 			d.flags |= fStaleTermMsg
 		}
 		g := c.sim.exec(n, &input{k: inStep, msg: p.m, enc: p.enc})
 		d.nodes[n.id-1] = g
 		d.absorb(g, n, e)
+		return d
+	}
+	if e.K == evIsolate {
+		if e.N == c.iso || int(e.N) > len(c.nodes) {
+			return nil
+		}
+		d := c.clone()
+		d.iso = e.N
 		return d
 	}
 	n := c.node(uint64(e.N))
@@ -1007,6 +1020,8 @@ func (c *cluster) describe(e Event) string {
 		if e.K == evDeliver {
 			if n := c.node(c.pool[i].m.To); n == nil || !n.alive {
 				s += " [receiver down: lost]"
+			} else if c.iso != 0 && (c.pool[i].m.To == uint64(c.iso) || c.pool[i].m.From == uint64(c.iso)) {
+				s += " [crosses the partition: lost]"
 			}
 		}
 		return s
@@ -1016,6 +1031,11 @@ func (c *cluster) describe(e Event) string {
 		return fmt.Sprintf("transferLeader(%d -> %d)", e.N, e.A)
 	case evPropose:
 		return fmt.Sprintf("propose(%d, p%d)", e.N, c.used.Proposals+1)
+	case evIsolate:
+		if e.N == 0 {
+			return "heal()"
+		}
+		return fmt.Sprintf("isolate(%d)", e.N)
 	}
 	return fmt.Sprintf("%s(%d)", evNames[e.K], e.N)
 }
@@ -1029,6 +1049,9 @@ func (c *cluster) summary() string {
 		}
 		fmt.Fprintf(&b, "  n%d %-12s t%d vote=%d lead=%d commit=%d applied=%d log=%s\n", n.id, n.status.RaftState, n.status.Term, n.status.Vote, n.status.Lead,
 			n.status.Commit, n.status.Applied, descLog(n))
+	}
+	if c.iso != 0 {
+		fmt.Fprintf(&b, "  node %d is partitioned from the others\n", c.iso)
 	}
 	fmt.Fprintf(&b, "  pool(%d):", len(c.pool))
 	for _, p := range c.pool {
